@@ -42,6 +42,9 @@ def _tables(case, units, classes):
         rows = [(units[a], units[b], _num(f), _num(o)) for a, b, f, o in t['rows']]
         if t.get('form') == 'map':
             conv = TableConverter({(a, b): (f, o) for a, b, f, o in rows})
+        elif t.get('form') == 'mapproxy':
+            from types import MappingProxyType           # a Mapping that is not a dict
+            conv = TableConverter(MappingProxyType({(a, b): (f, o) for a, b, f, o in rows}))
         elif t.get('form') == 'gen':
             conv = TableConverter(r for r in list(rows))        # a one-shot iterable
         elif t.get('form') == 'zip':
